@@ -13,6 +13,7 @@ import (
 
 	"github.com/atlassian/gostatsd"
 	"github.com/atlassian/gostatsd/pkg/statsd"
+	"github.com/atlassian/gostatsd/verifhooks"
 
 	"verifharness/hlib"
 	"verifharness/mmgen"
@@ -32,6 +33,7 @@ type fullInput struct {
 	Limit  uint32   `json:"limit"`
 	Exp    [4]int64 `json:"exp"` // counter, gauge, set, timer (ns; 0 = never)
 	Points []fop    `json:"points"`
+	Lexed  bool     `json:"lexed"` // datapoints travel as lines through the real lexer and its metric pool
 	Class  string   `json:"class"`
 }
 
@@ -40,7 +42,7 @@ var fullTagSets = [][]string{{}, {}, {"env:prod"}, {"b:2", "a:1"}, {"gsd_histogr
 	{"gsd_histogram:"}, {"gsd_histogram:5", "gsd_histogram:1_2"}}
 
 func genFull(r *hlib.Rand) fullInput {
-	in := fullInput{Full: true, Mask: make([]bool, 15)}
+	in := fullInput{Full: true, Mask: make([]bool, 15), Lexed: r.Chance(3, 4)}
 	for i, n := 0, r.Intn(4); i < n; i++ {
 		in.Pcts = append(in.Pcts, hlib.Pick(r, pctPool))
 	}
@@ -55,7 +57,7 @@ func genFull(r *hlib.Rand) fullInput {
 	}
 	names := []string{"m.a", "m.b", "t"}[:r.Range(1, 3)]
 	sources := []string{"", "10.0.0.1"}[:r.Range(1, 2)]
-	members := []string{"x", "y", "zz", ""}
+	members := []string{"x", "y", "zz", "w"}
 	now := int64(1000)
 	nops := r.Range(3, 12)
 	afterFlush := false
@@ -113,6 +115,9 @@ func genFull(r *hlib.Rand) fullInput {
 		now += int64(r.Intn(120))
 	}
 	in.Class = fmt.Sprintf("full/ops<=%d", (len(in.Points)+3)/4*4)
+	if in.Lexed {
+		in.Class += "/lexed"
+	}
 	return in
 }
 
@@ -178,6 +183,7 @@ func runFull(em *hlib.Emitter, in fullInput) {
 	}
 	agg := statsd.NewMetricAggregator(pcts, time.Duration(in.Exp[0]), time.Duration(in.Exp[1]), time.Duration(in.Exp[2]), time.Duration(in.Exp[3]),
 		maskOf(in.Mask), in.Limit)
+	ll := verifhooks.NewLineLexer(lexEstimatedTags)
 	now := int64(0)
 	agg.VerifSetNow(func() time.Time { return time.Unix(0, now) })
 	c := hlib.Case{Input: in, Class: in.Class}
@@ -191,8 +197,19 @@ func runFull(em *hlib.Emitter, in fullInput) {
 		msg := hlib.Recover(func() {
 			switch op.K {
 			case "recv":
-				dl := make([]string, len(op.Dps))
-				for j, d := range op.Dps {
+				dps := op.Dps
+				var mm *gostatsd.MetricMap
+				if in.Lexed {
+					ms, snap, err := lexBatch(ll, op.Dps)
+					if err != nil {
+						panic(err)
+					}
+					dps, mm = snap, receiveBatch(ms)
+				} else {
+					mm = mmgen.Build(op.Dps)
+				}
+				dl := make([]string, len(dps))
+				for j, d := range dps {
 					dl[j] = d.Coq()
 					for _, tg := range d.Tags {
 						if strings.HasPrefix(tg, "gsd_histogram:") {
@@ -207,7 +224,7 @@ func runFull(em *hlib.Emitter, in fullInput) {
 					}
 				}
 				opTerm = "(FRecv " + hlib.List(dl) + ")"
-				agg.ReceiveMap(mmgen.Build(op.Dps))
+				agg.ReceiveMap(mm)
 			case "flush":
 				opTerm = "(FFlush " + hlib.Z(op.Dt) + ")"
 				agg.Flush(time.Duration(op.Dt))
